@@ -102,6 +102,43 @@ def wide_ta(rng, rank):
     return {"fin": fin, "rules": rules}
 
 
+def fan_ta(rng):
+    """the FAN family: 4-8 states, a few child tuples each used with SEVERAL parents (and several symbols), states with identical
+    rule sets, plus a little random noise - shapes where two rules / environments differ in exactly one component"""
+    nq = rng.choice([4, 5, 6, 7, 8])
+    st = list(range(nq))
+    leafsyms = ["a", "b"][:rng.choice([1, 2])]
+    rules = []
+    for q in st:
+        if rng.random() < 0.6:
+            rules.append([rng.choice(leafsyms), [], q])
+    if not rules:
+        rules.append(["a", [], 0])
+    big = rng.sample([["f", 2], ["k", 2], ["t", 3], ["g", 1]], rng.choice([1, 2, 2]))
+    for _ in range(rng.choice([1, 2, 2, 3])):
+        s = rng.choice(big)
+        kids = [rng.choice(st) for _ in range(s[1])]
+        for par in rng.sample(st, rng.randint(2, min(6, nq))):
+            r = [s[0], list(kids), par]
+            if r not in rules:
+                rules.append(r)
+        if rng.random() < 0.5 and s[1] >= 2:
+            # the same tuple with one position changed, same parents partly
+            k2 = list(kids)
+            k2[rng.randrange(s[1])] = rng.choice(st)
+            for par in rng.sample(st, rng.randint(1, 3)):
+                r = [s[0], k2, par]
+                if r not in rules:
+                    rules.append(r)
+    for _ in range(rng.choice([0, 1, 2])):
+        s = rng.choice(big)
+        r = [s[0], [rng.choice(st) for _ in range(s[1])], rng.choice(st)]
+        if r not in rules:
+            rules.append(r)
+    fin = [q for q in st if rng.random() < 0.35] or [rng.choice(st)]
+    return {"fin": fin, "rules": rules}
+
+
 def rename(a, f):
     return {"fin": [f[q] for q in a.get("fin", [])],
             "rules": [[r[0], [f[k] for k in r[1]], f[r[2]]] for r in a.get("rules", [])]}
